@@ -76,6 +76,7 @@ import XotModel.Lemmas.BytesUtf16
 import XotModel.Lemmas.BytesBait
 import XotModel.Lemmas.C02Spellings
 import XotModel.Lemmas.LineEnds
+import XotModel.Lemmas.SpellFromNs
 
 namespace XotModel.Props
 open XotModel XotModel.Witness
@@ -481,6 +482,94 @@ theorem C02_spelled_ns_document {env : Env} (h : EnvBaseNs env) (len : Nat) (sns
   refine ⟨p, hb, by rw [ht]; rfl, ?_⟩
   rw [ht, he]
   exact decodeNs_encodeList _ env
+
+/-! ### The namespace-free theorems as the special case of the namespaced ones
+
+A namespace-free spelling `sns : List SNode` IS the namespaced spelling `SNode.toNs.toNsList sns` (every prefix
+absent, at the offset the `SNode` carries; no item of a start tag is a declaration): the same tokens
+(`SNode.toNsList_tokens`), a `WellNsDoc` when the `SNode`s are well formed (`wellNsDoc_toNs`: no declarations,
+every attribute in no namespace, hence different as written = different by expanded name, no ID values), denoting
+the same abstract document with every name in no namespace and no declarations (`SNode.toNsList_denote`,
+`PNode.toNs`), which is encoded to the same id tree over the same tables because the empty URI is namespace 0
+(`PNode.toNsList_encode`).  So `C02_spelled_ns_*` instantiate to `C02_spelled_*` — UNDER THE HYPOTHESIS OF THE
+NAMESPACED THEOREMS, `EnvBaseNs env`.  The two families are not comparable as stated:
+* hypothesis: the namespace-free theorems ask `EnvBase env` only (the empty prefix has id 0, name 1 is in some
+  namespace other than 0), which `EnvBaseNs env` implies (`EnvBaseNs.envBase`) and which is strictly weaker
+  (`C02_envBase_weaker`: tables holding the empty prefix only, no `xml`, no namespace at all) — the namespace-free
+  builder run never looks at a namespace string or at the prefix `xml`;
+* conclusion: the namespaced reading `decodeNs` (expanded names, declarations) says more than the
+  namespace-free `decodeTree` (local names only): from `EnvBaseNs` both hold (`C02_spelled_from_ns_*`). -/
+
+/-- `parse_fragment`, derived from `C02_spelled_ns_fragment` alone: the namespace-free conclusion of
+    `C02_spelled_fragment` and, moreover, the namespaced reading — every name in no namespace, no declarations. -/
+theorem C02_spelled_from_ns_fragment {env : Env} (h : EnvBaseNs env) (len : Nat) (sns : List SNode)
+    (hw : SNode.Well.wellList sns) (hadj : noAdjChars sns = true) :
+    ∃ p, build .fragment len env (SNode.tokens.tokensList sns) none = .ok p ∧
+      p.tree.value = .document ∧
+      decodeTree.decodeList p.env p.tree.kids = some ((SNode.denote.denoteList sns).map Sum.inr) ∧
+      decodeNs p.env p.tree.kids = some (PNode.toNs.toNsList (SNode.denote.denoteList sns)) := by
+  obtain ⟨p, hb, ht, he⟩ := build_fragment_spelled_ns h len (SNode.toNs.toNsList sns) (wellNsDoc_toNs hw hadj)
+  rw [SNode.toNsList_tokens] at hb
+  rw [SNode.toNsList_denote sns hw] at ht he
+  have hd : decodeNs p.env p.tree.kids = some (PNode.toNs.toNsList (SNode.denote.denoteList sns)) := by
+    rw [ht, he]; exact decodeNs_encodeList _ env
+  rw [(PNode.toNsList_encode _ env h.ns0).1] at ht he
+  refine ⟨p, hb, by rw [ht]; rfl, ?_, hd⟩
+  rw [ht, he]
+  exact decodeList_encodeList _ env _ (EnvExt.refl _)
+
+/-- `parse`, derived from the namespaced machinery alone. -/
+theorem C02_spelled_from_ns_document {env : Env} (h : EnvBaseNs env) (len : Nat) (sns : List SNode)
+    (hw : SNode.Well.wellList sns) (hadj : noAdjChars sns = true)
+    (htop : AbstractTop (SNode.denote.denoteList sns)) :
+    ∃ p, build .document len env (SNode.tokens.tokensList sns) none = .ok p ∧
+      p.tree.value = .document ∧
+      decodeTree.decodeList p.env p.tree.kids = some ((SNode.denote.denoteList sns).map Sum.inr) ∧
+      decodeNs p.env p.tree.kids = some (PNode.toNs.toNsList (SNode.denote.denoteList sns)) := by
+  have htop' : WellFormedTop (.node .document (NPNode.encode.encodeList env
+      (NSNode.denote.denoteList baseScope (SNode.toNs.toNsList sns))).2) := by
+    rw [SNode.toNsList_denote sns hw, (PNode.toNsList_encode _ env h.ns0).1]
+    exact wellFormedTop_of_abstract htop
+  obtain ⟨p, hb, ht, he⟩ := build_document_spelled_ns h len (SNode.toNs.toNsList sns) (wellNsDoc_toNs hw hadj) htop'
+  rw [SNode.toNsList_tokens] at hb
+  rw [SNode.toNsList_denote sns hw] at ht he
+  have hd : decodeNs p.env p.tree.kids = some (PNode.toNs.toNsList (SNode.denote.denoteList sns)) := by
+    rw [ht, he]; exact decodeNs_encodeList _ env
+  rw [(PNode.toNsList_encode _ env h.ns0).1] at ht he
+  refine ⟨p, hb, by rw [ht]; rfl, ?_, hd⟩
+  rw [ht, he]
+  exact decodeList_encodeList _ env _ (EnvExt.refl _)
+
+/-- The instance: `C02_spelled_fragment` / `_document` restricted to `EnvBaseNs` follow from the theorems above
+    (which use the namespaced machinery only). -/
+theorem C02_spelled_from_ns {env : Env} (h : EnvBaseNs env) (len : Nat) (sns : List SNode)
+    (hw : SNode.Well.wellList sns) (hadj : noAdjChars sns = true) :
+    (∃ p, build .fragment len env (SNode.tokens.tokensList sns) none = .ok p ∧ p.tree.value = .document ∧
+      decodeTree.decodeList p.env p.tree.kids = some ((SNode.denote.denoteList sns).map Sum.inr)) ∧
+    (AbstractTop (SNode.denote.denoteList sns) →
+      ∃ p, build .document len env (SNode.tokens.tokensList sns) none = .ok p ∧ p.tree.value = .document ∧
+        decodeTree.decodeList p.env p.tree.kids = some ((SNode.denote.denoteList sns).map Sum.inr)) := by
+  refine ⟨?_, fun htop => ?_⟩
+  · obtain ⟨p, h1, h2, h3, _⟩ := C02_spelled_from_ns_fragment h len sns hw hadj
+    exact ⟨p, h1, h2, h3⟩
+  · obtain ⟨p, h1, h2, h3, _⟩ := C02_spelled_from_ns_document h len sns hw hadj htop
+    exact ⟨p, h1, h2, h3⟩
+
+/-- The namespace-free spelling as a namespaced one: same tokens, `WellNsDoc`, same denotation in no namespace. -/
+theorem C02_spelling_is_ns_spelling (sns : List SNode) (hw : SNode.Well.wellList sns) (hadj : noAdjChars sns = true) :
+    NSNode.tokens.tokensList (SNode.toNs.toNsList sns) = SNode.tokens.tokensList sns ∧
+    WellNsDoc (SNode.toNs.toNsList sns) ∧
+    NSNode.denote.denoteList baseScope (SNode.toNs.toNsList sns) =
+      PNode.toNs.toNsList (SNode.denote.denoteList sns) :=
+  ⟨SNode.toNsList_tokens sns, wellNsDoc_toNs hw hadj, SNode.toNsList_denote sns hw⟩
+
+/-- Why the namespace-free theorems are not LITERALLY instances: their hypothesis on the tables is strictly
+    weaker than `EnvBaseNs`. -/
+theorem C02_envBase_weaker : (∀ env, EnvBaseNs env → EnvBase env) ∧ ∃ env, EnvBase env ∧ ¬ EnvBaseNs env :=
+  ⟨fun _ h => h.envBase, envBaseOnly, envBaseOnly_spec⟩
+
+/-- Non-vacuity: `Xot::new()`'s tables meet `EnvBaseNs`. -/
+example : EnvBaseNs Env.fresh := C02_envBaseNs_fresh
 
 /-- C02_fragment with namespaces: `parse_fragment` of a text and `parse` of the same text wrapped in
     one unprefixed element without attributes `<w>…</w>` denote the same content. -/
